@@ -180,6 +180,7 @@ func c04Run(b *core.B) {
 		}
 		pan := core.Guard(func() {
 			_, _ = plush.BuffaloRenderer(t, nil, nil)
+			_, _ = plush.BuffaloRenderer(t, nil, map[string]interface{}{"h": func() string { return "h" }})
 			_, _ = plush.Render(t, plush.NewContextWith(nil))
 			_, _ = plush.Render(t, plush.NewContextWithOuter(nil, plush.NewContext()))
 		})
